@@ -500,7 +500,35 @@ def main(rep):
                 s.write(3, f_)
                 s.dump()
                 qcases.append(("qm%d" % i, s.text(), {"queue_after": c2.queue[len(wc.R):]}))
-            fq, vq = wk.run_cases(rep, exe_impl, exe_model, qcases, ["queue_in_force", "fault_reported"], what="queue")
+            # "if it is invalid, an error is reported and NONE of it is applied": a rewrite that parses, keeps the queue,
+            # shortens the debounce - and whose journal cannot be opened (its path names a directory): rejected; what is
+            # pending keeps waiting by the OLD debounce
+            rjcases = []
+            for i in range(6 if rep.tier == "quick" else 40):
+                s = wc.Script()
+                old_deb = rngq.choice([3600, 60, 7])
+                cfg = wc.setup_world(s, wc.base_cfg(deb=old_deb))
+                s.start()
+                s.exec(3, wc.X + "/vim")
+                f_ = rngq.choice([wc.WATCH + "/inc/a.txt", wc.WATCH + "/n"])
+                s.put(f_, "pending %d" % i)
+                s.write(3, f_)
+                s.tick(1)
+                c2 = copy.deepcopy(cfg)
+                c2.deb = 0
+                c2.journal = wc.R + "/k/var"          # a directory
+                s.config(c2)
+                s.write(rngq.choice([3, 9]), wc.CFG_PATH)
+                s.tick(1)
+                s.dump()
+                s.timeout()
+                s.dump()
+                rjcases.append(("rj%d" % i, s.text(), {"deb": old_deb}))
+            fr, vr = wk.run_cases(rep, exe_impl, exe_model, rjcases, ["bursts", "fault_reported"], what="rejected reload")
+            found = found or fr
+            validated += vr
+            qcases = qcases + rjcases
+            fq, vq = (False, 0) if found else wk.run_cases(rep, exe_impl, exe_model, qcases[:len(qcases) - len(rjcases)], ["queue_in_force", "fault_reported"], what="queue")
             found = found or fq
             validated += vq
         rc = reload_cases(rep.tier, rep.seed)
